@@ -192,7 +192,7 @@ class Bus (objects.DBusObject):
         for key in [k for k in self.matchRuleIds if k[0] == proto.uniqueName]:
             del self.matchRuleIds[key]
 
-        for busName in proto.busNames.keys():
+        for busName in list(proto.busNames.keys()):
             self.dbus_ReleaseName(busName, proto.uniqueName)
 
         if proto.uniqueName:
@@ -446,19 +446,23 @@ class Bus (objects.DBusObject):
         if queue is None:
             return client.NAME_NON_EXISTENT
 
-        owner = queue[0]
-
-        if caller is not owner:
+        if caller not in queue:
             return client.NAME_NOT_OWNER
 
-        del queue[0]
+        was_owner = queue[0] is caller
 
-        if caller.isConnected:
-            self.sendSignal(caller, 'NameLost', 's', name)
+        # the owner gives the name up, a waiting client leaves the queue
+        queue.remove(caller)
+        caller.busNames.pop(name, None)
 
-        if queue:
-            self.sendSignal(queue[0], 'NameAcquired', 's', name)
-        else:
+        if was_owner:
+            if caller.isConnected:
+                self.sendSignal(caller, 'NameLost', 's', name)
+
+            if queue:
+                self.sendSignal(queue[0], 'NameAcquired', 's', name)
+
+        if not queue:
             del self.busNames[name]
 
         return client.NAME_RELEASED
